@@ -219,6 +219,141 @@ def m_split_next(I, st, info, args, depth):
     return out
 
 
+def _chunks_of(I, st, v):
+    x = deref(I, st, v)
+    if isinstance(x, StrV) and isinstance(x.s, str):
+        return [("lit", x.s)], Aff(len(x.s))
+    if isinstance(x, Seq) and x.kind == "str" and x.chunks is not None:
+        flat = []
+        for c in x.chunks:
+            inner = deref(I, st, c[1]) if c[0] == "arg" else None
+            if isinstance(inner, Seq) and inner.chunks is not None:
+                sub = _chunks_of(I, st, c[1])
+                if sub is None:
+                    return None
+                flat.extend(sub[0])
+            elif isinstance(inner, StrV) and isinstance(inner.s, str):
+                flat.append(("lit", inner.s))
+            else:
+                flat.append(c)
+        out = []
+        for c in flat:
+            if c[0] == "lit" and c[1] == "":
+                continue
+            if c[0] == "lit" and out and out[-1][0] == "lit":
+                out[-1] = ("lit", out[-1][1] + c[1])
+            else:
+                out.append(c)
+        return out, x.length
+    return None
+
+
+def _piece_len(I, st, c):
+    if c[0] == "lit":
+        return Aff(len(c[1]))
+    inner = deref(I, st, c[1]) if c[0] == "arg" else None
+    if isinstance(inner, Seq) and isinstance(inner.length, Aff):
+        return inner.length
+    return Aff.sym("len(%s)" % MD.describe(I, st, c[1]) if c[0] == "arg" else "len(?)")
+
+
+def _rest(I, st, chunks, total, name):
+    if all(c[0] == "lit" for c in chunks):
+        return StrV("".join(c[1] for c in chunks))
+    ln = Aff(0)
+    for c in chunks:
+        ln = ln.add(_piece_len(I, st, c))
+    return Seq(name, ln, None, list(chunks), kind="str")
+
+
+@smodel(r"^core::str::<impl str>::strip_prefix$")
+def m_strip_prefix(I, st, info, args, depth):
+    """`text.strip_prefix(p)` on a text pieced together from literal and symbolic pieces ("{V}.{P}."): a literal pattern is decided on
+    a literal first piece; a symbolic pattern against a symbolic first piece is equal to it (the piece is removed), a proper prefix of
+    it (a non-empty remainder of the piece stays in front) or not a prefix at all.  Pieces that render a version / purpose marker do
+    not contain the separator '.', which the header table rule (C07.R3) establishes for the markers themselves."""
+    ch = _chunks_of(I, st, args[0])
+    if ch is None:
+        return None
+    chunks, total = ch
+    pc = I.resolve(st, args[1])
+    pat = deref(I, st, args[1])
+    if isinstance(pc, Aff) and pc.is_const() and "char" in info["name"]:
+        pat = StrV(chr(pc.const))
+    base = MD.describe(I, st, args[0])
+    if isinstance(pat, StrV) and isinstance(pat.s, str):
+        t = pat.s
+        if t == "":
+            return ret(st, some(_rest(I, st, chunks, total, base)))
+        if not chunks:
+            return ret(st, none())
+        c0 = chunks[0]
+        if c0[0] == "lit":
+            if c0[1].startswith(t):
+                rest = [("lit", c0[1][len(t):])] + chunks[1:]
+                rest = [c for c in rest if not (c[0] == "lit" and c[1] == "")]
+                return ret(st, some(_rest(I, st, rest, total, "%s[%d..]" % (base, len(t)))))
+            if len(c0[1]) >= len(t) or len(chunks) == 1:
+                return ret(st, none())
+            return None
+        inner = deref(I, st, c0[1]) if c0[0] == "arg" else None
+        if t.startswith(".") and isinstance(inner, (Seq, Sym)) and getattr(inner, "attrs", {}).get("nonempty_nodot"):
+            return ret(st, none())
+        return None
+    if not isinstance(pat, (Seq, Sym)) or not chunks:
+        return None
+    c0 = chunks[0]
+    if c0[0] == "lit":
+        # a symbolic pattern against literal text: it is one of the text's prefixes, or none of them
+        lit = c0[1]
+        dotfree = isinstance(pat, Seq) and "segs" in pat.attrs and pat.attrs["segs"][1] == pat.attrs["segs"][2] \
+            and st.facts.get(("segsep", pat.attrs["segs"][0])) in lit
+        cands = []
+        for k in range(len(lit), -1, -1):
+            if dotfree and st.facts.get(("segsep", pat.attrs["segs"][0])) in lit[:k]:
+                continue
+            cands.append(k)
+        if len(chunks) > 1 and cands and cands[0] == len(lit):
+            return None     # the pattern may reach into the next, symbolic piece
+        out = []
+        cur = st
+        for k in cands:
+            nxt = None
+            for s2, r in MD.str_eq(I, cur, args[1], StrV(lit[:k])):
+                if r:
+                    rest = ([("lit", lit[k:])] if lit[k:] else []) + chunks[1:]
+                    out.append((s2, "return", some(_rest(I, s2, rest, total, "%s[%d..]" % (base, k)))))
+                else:
+                    nxt = s2
+            if nxt is None:
+                return out
+            cur = nxt
+        out.append((cur, "return", none()))
+        return out
+    first = deref(I, st, c0[1])
+    if not isinstance(first, (Seq, Sym)):
+        return None
+    da, db = MD.describe(I, st, args[1]), MD.describe(I, st, c0[1])
+    out = []
+    s_eq = st.clone()
+    s_eq.cond.append("%s == %s" % (da, db))
+    s_eq.events.append(("equal", da, db))
+    out.append((s_eq, "return", some(_rest(I, s_eq, chunks[1:], total, "%s[after %s]" % (base, db)))))
+    s_pre = st.clone()
+    s_pre.cond.append("%s is a proper prefix of %s" % (da, db))
+    s_pre.events.append(("notequal", da, db))
+    # a version / purpose marker (C07.R3: the markers are dot-free) or a segment of a text split at '.' has no '.' inside
+    nodot = db in ("V", "P") or isinstance(first, Seq) and "segs" in first.attrs and first.attrs["segs"][1] == first.attrs["segs"][2] \
+        and st.facts.get(("segsep", first.attrs["segs"][0])) == "."
+    sfx = Seq("%s[len(%s)..]" % (db, da), Aff.sym("len(%s[len(%s)..])" % (db, da)), kind="str", attrs={"nonempty_nodot": True} if nodot else {})
+    s_pre.bounds["len(%s[len(%s)..])" % (db, da)] = (1, LEN_MAX)
+    out.append((s_pre, "return", some(_rest(I, s_pre, [("arg", sfx)] + chunks[1:], total, "%s[len(%s)..]" % (base, da)))))
+    st.cond.append("%s is not a prefix of %s" % (da, db))
+    st.events.append(("notequal", da, db))
+    out.append((st, "return", none()))
+    return out
+
+
 def install():
     MD.MODELS[:] = [(p, f) for p, f in NEW] + [m for m in MD.MODELS if not (m[1].__module__ == __name__)]
 
